@@ -333,3 +333,139 @@ def energy_tables_source():
             rows.append(tuple(_num_node(text, e) for e in r.elts))
         out.append((key[0], key[1] or 0, rows))
     return out
+
+
+# --------------------------------------------------------------------------- ancillary tables (C20)
+
+def _string_literal(rel, name):
+    v = translate.literal(translate.module_ast(rel), name)
+    if not isinstance(v, str):
+        raise Unreadable("%s: %s is not a string literal" % (rel, name))
+    return v
+
+
+def cordero_source():
+    return _string_literal("periodictable/covalent_radius.py", "Cordero")
+
+
+def read_cordero(text: str):
+    """[None (alternate spin state, '-') | (z, r, dr)]; dr in units of 0.01 Å, 0 when not given"""
+    rows = []
+    for line in text.split("\n"):
+        m = re.fullmatch(r"\s*(-|[0-9]+)\s+(\S+)\s+(%s)(?:\s+(%s)(?:\s+\S+)*)?\s*" % (NUM, NUM), line)
+        if not m:
+            raise Unreadable("Cordero line %r" % line)
+        if m.group(1) == "-":
+            rows.append(None)
+        else:
+            rows.append((int(m.group(1)), dec(m.group(3)), dec(m.group(4)) if m.group(4) else Dec(0, 0)))
+    return rows
+
+
+def crystal_source():
+    """[None | (symmetry, [(key, Dec)])] – list index is Z"""
+    rel = "periodictable/crystal_structure.py"
+    tree = translate.module_ast(rel)
+    node = translate.assigned(tree, "crystal_structures")
+    text = translate.src(rel)
+    if not isinstance(node, (ast.List, ast.Tuple)):
+        raise Unreadable("crystal_structures is not a list literal")
+    out = []
+    for e in node.elts:
+        if isinstance(e, ast.Constant) and e.value is None:
+            out.append(None)
+            continue
+        if not isinstance(e, ast.Dict):
+            raise Unreadable("crystal_structures entry is not a dict literal")
+        sym, params = None, []
+        for k, v in zip(e.keys, e.values):
+            if not (isinstance(k, ast.Constant) and isinstance(k.value, str)):
+                raise Unreadable("crystal_structures key is not a string")
+            if k.value == "symmetry":
+                if not (isinstance(v, ast.Constant) and isinstance(v.value, str)):
+                    raise Unreadable("crystal symmetry is not a string")
+                sym = v.value
+            else:
+                params.append((k.value, _num_node(text, v)))
+        if sym is None:
+            raise Unreadable("crystal_structures entry without symmetry")
+        out.append((sym, params))
+    return out
+
+
+def spectral_source():
+    return _string_literal("periodictable/xsf.py", "spectral_lines_data")
+
+
+def read_spectral(text: str):
+    """[(symbol, K_alpha, K_beta1)]"""
+    rows = []
+    for line in text.split("\n"):
+        m = re.fullmatch(r"\s*([A-Za-z]+)\s+(%s)\s+(%s)\s*" % (NUM, NUM), line)
+        if not m:
+            raise Unreadable("spectral_lines_data line %r" % line)
+        rows.append((m.group(1), dec(m.group(2)), dec(m.group(3))))
+    return rows
+
+
+def cfml_source():
+    return _string_literal("periodictable/magnetic_ff.py", "CFML_DATA")
+
+
+JN_OF = {"Form": None, "j2": "j2", "j4": "j4", "j6": "j6"}
+
+
+def read_cfml(text: str):
+    """[(jn, symbol, charge, [Dec])] in table order, read from the whole Fortran text with one
+    regular expression (not line by line)"""
+    rows = []
+    pat = re.compile(r"Magnetic_(Form|j2|j4|j6)\s*\(\s*[0-9]+\s*\)\s*=\s*Magnetic_Form_Type\s*\(\s*\"([^\"]*)\"\s*,"
+                     r"\s*(?:&\s*\n)?\s*\(/([^/]*)/\)\s*\)")
+    for m in pat.finditer(text):
+        kind, state, nums = m.group(1), m.group(2), m.group(3)
+        if kind == "Form":
+            if state[:1] not in ("M", "J"):
+                raise Unreadable("Magnetic_Form state %r" % state)
+            jn = "j0" if state[0] == "M" else "J"
+            state = state[1:]
+        else:
+            jn = kind
+        ms = re.fullmatch(r"([A-Za-z]{1,2}?)([0-9])\s*", state)
+        if not ms:
+            raise Unreadable("CFML state %r" % state)
+        sym = ms.group(1)
+        sym = sym[0].upper() + sym[1:].lower()
+        rows.append((jn, sym, int(ms.group(2)), [dec(x) for x in nums.split(",")]))
+    n_eq = sum(1 for line in text.replace("&\n", "").split("\n") if "=" in line)
+    if n_eq != len(rows):
+        raise Unreadable("CFML_DATA: %d lines contain '=' but %d entries were recognised" % (n_eq, len(rows)))
+    return rows
+
+
+def f0_source():
+    p = translate.REPO / "periodictable" / "xsf" / "f0_WaasKirf.dat"
+    try:
+        return p.read_text()
+    except OSError as e:
+        raise Unreadable("f0_WaasKirf.dat: %s" % e)
+
+
+def read_f0(text: str):
+    """[(name, Z, charge | None, a[5], c, b[5])] – DABAX blocks `#S Z name / #N / #L / numbers`;
+    charge None for valence-state entries (names that are not `Sym` or `Sym<n><+|->`)"""
+    out = []
+    pat = re.compile(r"^#S\s+([0-9]+)\s+(\S+)[^\n]*\n(?:#[^SL][^\n]*\n)*#L[^\n]*\n([^\n]*)$", re.M)
+    for m in pat.finditer(text):
+        nums = m.group(3).split()
+        if len(nums) != 11:
+            raise Unreadable("f0 block %s has %d numbers" % (m.group(2), len(nums)))
+        v = [dec(x) for x in nums]
+        name = m.group(2)
+        mm = re.fullmatch(r"([A-Z][a-z]?)(?:([0-9]+)([+-]))?", name)
+        q = None
+        if mm:
+            q = 0 if mm.group(2) is None else int(mm.group(2)) * (1 if mm.group(3) == "+" else -1)
+        out.append((name, int(m.group(1)), q, v[0:5], v[5], v[6:11]))
+    if len(out) != len(re.findall(r"^#S\b", text, re.M)):
+        raise Unreadable("f0_WaasKirf.dat: not every #S block was recognised")
+    return out
